@@ -142,7 +142,10 @@ def _run_task(task):
            'reached': 0, 'covers': {}}
     t0 = time.time()
     cfg = getattr(mod, 'CFG', {})
-    ex = interp.Explorer(Mx, cfg, seed=_W['seed'], timeout_ms=cfg.get('solver_timeout_ms', 120000))
+    # per-query solver budget: the thorough tier allows four times as long (its shapes are larger and it is usually
+    # run next to other work); a query that still comes back unknown makes the run inconclusive, never a pass
+    tmo = int(os.environ.get('VERIF_SOLVER_TIMEOUT_MS', '0') or 0) or cfg.get('solver_timeout_ms', 120000) * (4 if _W.get('tier') == 'thorough' else 1)
+    ex = interp.Explorer(Mx, cfg, seed=_W['seed'], timeout_ms=tmo)
     rnd = random.Random(_W['seed'] * 7919 + hash(json.dumps(task, sort_keys=True, default=str)) % 100003)
     sample_every = [1]
     per_class = {}
